@@ -86,3 +86,12 @@ _b("C17", "finite-map model stepped alongside d/kw/entry/extend/at.set/|/mask/fi
    "Exploration: validity and value of every lookup must equal the model's (left-biased union, mask(False) empties, filter keeps selected static parts, index levels address elements) in the concrete, array and jit replicas; get_selection must select the static part of every valid address.")
 _b("C19", "truth tables of | ^ ~ build flatten maybe_mask unmask(default) or_n xor_n applied to (flag, value, defined) triples, scalar and vectorised flags, pytree values",
    "Exploration: flag and valid value of every intermediate result must equal the truth tables in the concrete, array, jit and vmap replicas (payloads the tables leave undefined are not compared).")
+
+
+CLAIMS["C31"] = (
+    "ttsim",
+    "deterministic simulation: seeded navigation histories (jump/fwd/bwd/remix, stacked remixes) on generated JAX programs with record points and tags, stepped against a list-and-pointer model that replays the program in plain Python; replicas: Python-scalar vs array arguments",
+    "Exploration: after recording and after every navigation step the debugger's final_retval, frame count, every frame's arguments and local return value, the pointer and the jump points must equal the model's; remix at frame k must equal re-running with that call's arguments replaced and all earlier remixes still in force.",
+    "sampling, not proof; trusted base: the replay model in sim/ttsim.py; jit around time_machine is not a replica because the debugger object is not a JAX type (TypeError), which the property does not ask for",
+    "DESIGN 2.14, 3 C31",
+)
